@@ -18,9 +18,12 @@ THEOREMS = [
     "Qentem.Props.C05.parse_no_fault",
     "Qentem.Props.C05.result_complete_or_undefined",
     "Qentem.Props.C05.fuel_bound",
+    "Qentem.Props.C05.parse_no_fault_concrete",
+    "Qentem.Json.jsonDeps_safe",
     "Qentem.Json.unEscapeDep_ok",
+    "Qentem.Json.strToNumDep_ok",
 ]
-OPEN = ["DepsSafe (jsonDeps w) for the StringToNumber model (never faults, consumed offset inside the buffer) — requested from the C09 area; until then parse_no_fault is instantiated for the UnEscape half only"]
+OPEN = []
 
 
 def run(ctx):
